@@ -28,7 +28,8 @@ Dummies ==
     /\ offered = <<>> /\ callAt = <<>> /\ reply = <<>> /\ done = <<>> /\ pre = <<>>
     /\ ret = "none" /\ retAt = "none" /\ final = FALSE
     /\ mpc = "pre" /\ npc = <<>> /\ sem = 0 /\ due = <<>> /\ completed = FALSE
-    /\ tpc = "armed" /\ clock = 0 /\ lost = 0
+    /\ tpc = "armed" /\ clock = 0 /\ lost = 0 /\ memo = <<>> /\ held = 0
+    /\ known = <<>> /\ callNo = 1
 
 SInit ==
     /\ sub \in Subs
@@ -51,7 +52,7 @@ SInit ==
 SNext ==
     /\ Len(nodes) < want
     /\ \E d \in AnyNodes(kind) : nodes' = Append(nodes, d)
-    /\ UNCHANGED <<kind, conc, items, ovars, mvars, sub, want>>
+    /\ UNCHANGED <<kind, conc, items, ivars, ovars, mvars, sub, want>>
 
 SSpec == SInit /\ [][SNext]_svars
 
